@@ -8,6 +8,7 @@ import Bpp.CtorsThm
 import Model.Transcript
 import Bpp.GensThm
 import Bpp.BindingThm
+import Bpp.NonceThm
 /-! # Property theorems
 
 Only the property statements live here, one block per C-id, each about the **executable** model functions of
@@ -506,5 +507,40 @@ theorem C05_d1k_unique (I : RangeInst F M) (π : ProofM F M) (k : ℕ) (hk : k <
     (h' : Model.specResidual I { π with d1 := fun i => if i = k then x else π.d1 i } y z es e = 0) :
     π.d1 k = x ∨ I.Gb k = 0 := by
   rw [specResidual_bridge] at h h'; exact response_d1k_unique I π k hk x y z es e h h'
+
+/-! ## C13 Nonces fresh / C14 hedged randomness (model `Model.Nonce`; STROBE and Blake2b are parameters, their
+PRF behaviour is outside the proof: what is proved is that distinct positions, witnesses and histories give distinct
+*inputs* to them) -/
+
+open Model.Nonce in
+/-- **C13 (schedule).** Every nonce position of a proof (`α_k`, `dL_{j,k}`, `dR_{j,k}`, `r`, `s`, `d_k`, `η_k`) is
+    fed by its own source: a distinct (RNG instance, draw) without a seed; with a seed a distinct (label, j, k) for
+    all but `r`, `s`. No position is constant, none is shared. -/
+theorem C13_schedule_inj (seeded : Bool) (t κ : ℕ) (p q : Pos) (hp : p.valid t κ) (hq : q.valid t κ)
+    (h : source seeded t κ p = source seeded t κ q) : p = q := NonceThm.source_inj seeded t κ p q hp hq h
+
+open Model.Nonce in
+/-- **C13 (`r`, `s` always from the RNG).** -/
+theorem C13_r_s_from_rng (seeded : Bool) (t κ : ℕ) :
+    source seeded t κ .r = .rng (κ + 1) 0 ∧ source seeded t κ .s = .rng (κ + 1) 1 := NonceThm.r_s_from_rng seeded t κ
+
+open Model.Nonce Model.Transcript in
+/-- **C13 (seed key layout).** The MAC key is injective in (seed, j, k); the label is the persona. -/
+theorem C13_key_inj (s s' : Bytes) (hs : s.length = 32) (hs' : s'.length = 32) (j j' k k' : Option ℕ)
+    (hj : ∀ x, j = some x → x < 2 ^ 32) (hj' : ∀ x, j' = some x → x < 2 ^ 32)
+    (hk : ∀ x, k = some x → x < 2 ^ 32) (hk' : ∀ x, k' = some x → x < 2 ^ 32)
+    (h : nonceKey s j k = nonceKey s' j' k') : s = s' ∧ j = j' ∧ k = k' :=
+  NonceThm.nonceKey_inj s s' hs hs' j j' k k' hj hj' hk hk' h
+
+/-- **C13 (draws are non-zero).** = `C08_weight_nonzero` (same `random_not_zero`). -/
+theorem C13_nonzero [DecidableEq F] (draws : List F) (w : F) (h : Model.firstNonZero draws = some w) : w ≠ 0 :=
+  C08_weight_nonzero draws w h
+
+open Model.Nonce Model.Transcript in
+/-- **C14 (hedging).** The construction input of every prover RNG instance determines the transcript history it was
+    forked from, the serialised witness and the external bytes: runs differing in the witness or in any absorbed
+    public datum have different inputs whatever the external RNG returns; identical runs have identical inputs. -/
+theorem C14_rng_input_inj (h h' : List Event) (w w' e e' : Bytes) (heq : rngInput h w e = rngInput h' w' e') :
+    h = h' ∧ w = w' ∧ e = e' := NonceThm.rngInput_inj h h' w w' e e' heq
 
 end Bpp
